@@ -1,1 +1,198 @@
-(* Props/C08.v -- stub, to be filled in *)
+(* Props/C08.v -- iterative solvers: reported success means solved.  Property theorems only:
+   Theorem / exact lemma / Check (pins the statement) / Print Assumptions.
+   [run mulA mulAT rows cols sv b x0 n tol] is the Gallina model of
+   solve_cg / solve_bicg (itol) / solve_bicgstab / solve_qmr (coq/Model/Iter.v) on a matrix given by
+   its two products; it returns (Result, final x, ghost) or a panic. *)
+From Coq Require Import List Arith ZArith Floats Reals.
+From OV Require Import Base.Panic Base.Arith Model.Vector Model.Matrix Model.Sparse Model.Iter Inst.FloatInst Inst.QcInst
+  Proofs.Iter Proofs.IterField Proofs.IterInst Proofs.IterR Proofs.IterRows.
+Import ListNotations.
+
+(* ---- any arithmetic (floats included), any products, any sizes ---- *)
+
+(* the function the correspondence check runs (CSC products of Model/Sparse.v) is [run] at those products,
+   by definition: every theorem below applies to it as it stands *)
+Example run_sparse_is_run : forall (A : SArith) sv (s : sparse (SA A)) b x n tol,
+  run_sparse sv s b x n tol = run (sp_mul s) (sp_tmul s) (sp_rows s) (sp_cols s) sv b x n tol.
+Proof. reflexivity. Qed.
+
+Theorem ok_le_budget : forall (A : SArith) (mulA mulAT : list (T (SA A)) -> res (list (T (SA A)))) rows cols
+    sv b x0 n tol k x g,
+  run mulA mulAT rows cols sv b x0 n tol = Ok (IOk k, x, g) -> k <= n.
+Proof. intros A mulA mulAT rows cols sv b x0 n tol k x g H. exact (proj1 (run_ok_inv mulA mulAT rows cols sv b x0 n tol k x g H)). Qed.
+Check ok_le_budget : forall (A : SArith) (mulA mulAT : list (T (SA A)) -> res (list (T (SA A)))) rows cols
+    sv b x0 n tol k x g,
+  run mulA mulAT rows cols sv b x0 n tol = Ok (IOk k, x, g) -> k <= n.
+Print Assumptions ok_le_budget.
+
+Theorem zero_budget_untouched : forall (A : SArith) (mulA mulAT : list (T (SA A)) -> res (list (T (SA A)))) rows cols
+    sv b x0 tol o x g,
+  run mulA mulAT rows cols sv b x0 0 tol = Ok (o, x, g) -> x = x0.
+Proof. intros A mulA mulAT rows cols sv b x0 tol o x g H. exact (run_zero_budget mulA mulAT rows cols sv b x0 tol o x g H). Qed.
+Check zero_budget_untouched : forall (A : SArith) (mulA mulAT : list (T (SA A)) -> res (list (T (SA A)))) rows cols
+    sv b x0 tol o x g,
+  run mulA mulAT rows cols sv b x0 0 tol = Ok (o, x, g) -> x = x0.
+Print Assumptions zero_budget_untouched.
+
+(* whatever a solver returns (Ok or Err), x still has the length of the caller's x *)
+Theorem x_keeps_length : forall (A : SArith) (mulA mulAT : list (T (SA A)) -> res (list (T (SA A)))) rows cols
+    sv b x0 n tol o x g,
+  run mulA mulAT rows cols sv b x0 n tol = Ok (o, x, g) -> length x = length x0.
+Proof. intros A mulA mulAT rows cols sv b x0 n tol o x g H. exact (run_length mulA mulAT rows cols sv b x0 n tol o x g H). Qed.
+Check x_keeps_length : forall (A : SArith) (mulA mulAT : list (T (SA A)) -> res (list (T (SA A)))) rows cols
+    sv b x0 n tol o x g,
+  run mulA mulAT rows cols sv b x0 n tol = Ok (o, x, g) -> length x = length x0.
+Print Assumptions x_keeps_length.
+
+(* [passed b tol g]: norm2 (g_t g) / (||b||, 0 replaced by 1) evaluates to a value resid with
+   resid <= tol (or resid < tol), g_t g being the vector the last convergence test looked at *)
+Theorem ok_passed_test : forall (A : SArith) (mulA mulAT : list (T (SA A)) -> res (list (T (SA A)))) rows cols
+    sv b x0 n tol k x g,
+  run mulA mulAT rows cols sv b x0 n tol = Ok (IOk k, x, g) -> passed b tol g.
+Proof. intros A mulA mulAT rows cols sv b x0 n tol k x g H. exact (proj2 (run_ok_inv mulA mulAT rows cols sv b x0 n tol k x g H)). Qed.
+Check ok_passed_test : forall (A : SArith) (mulA mulAT : list (T (SA A)) -> res (list (T (SA A)))) rows cols
+    sv b x0 n tol k x g,
+  run mulA mulAT rows cols sv b x0 n tol = Ok (IOk k, x, g) -> passed b tol g.
+Print Assumptions ok_passed_test.
+
+(* non-vacuity: the float instance on the CSC matrix [[4,1],[1,3]], b = (1,2), x0 = (2,1), tol 2^-40 answers
+   Ok 2 with CG (budget 10), and answers (Err _, x0 untouched) with budget 0 *)
+Definition ex_s : sparse AF := @mkS AF 2 2 4 [4; 1; 1; 3]%float [0; 1; 0; 1] [0; 2; 4].
+Definition ex_tol : float := Z.ldexp 1%float (-40)%Z.
+Example ok_le_budget_nonvacuous : exists x g,
+  @run SAF (sp_mul ex_s) (sp_tmul ex_s) 2 2 CG [1; 2]%float [2; 1]%float 10 ex_tol = Ok (IOk 2, x, g).
+Proof. apply (@ok_k_witness SAF). vm_compute. reflexivity. Qed.
+Example ok_passed_test_nonvacuous : exists x g,
+  @run SAF (sp_mul ex_s) (sp_tmul ex_s) 2 2 QMR [1; 2]%float [2; 1]%float 10 ex_tol = Ok (IOk 2, x, g).
+Proof. apply (@ok_k_witness SAF). vm_compute. reflexivity. Qed.
+Example zero_budget_untouched_nonvacuous : exists r g,
+  @run SAF (sp_mul ex_s) (sp_tmul ex_s) 2 2 BiCGSTAB [1; 2]%float [2; 1]%float 0 ex_tol = Ok (r, [2; 1]%float, g).
+Proof. apply (@out_x_witness SAF). vm_compute. reflexivity. Qed.
+
+(* ---- any field (FieldLaws), ANY square-root function, any matrix given by a linear product
+        [LinOp n mulA]: total on vectors of length n, additive, homogeneous.  The statements are
+        about every value the solver can return -- Ok or Err, from every exit, for every budget --
+        so they say that the recurrence vector equals the true residual b - A x at every iteration.
+        (g_t g is the recurrence residual the last test looked at; over a field a division by
+        zero is a panic, so a run that meets one returns nothing and the statements are silent.) ---- *)
+
+Theorem residual_invariant_cg : forall (A : SArith), FieldLaws (SA A) ->
+  forall n (mulA : list (T (SA A)) -> res (list (T (SA A)))) cols b x0 max tol r x g,
+  LinOp n mulA -> solve_cg mulA n cols b x0 max tol = Ok (r, x, g) ->
+  exists ax, mulA x = Ok ax /\ g_t g = zipw sub b ax.
+Proof. intros A FL n mulA cols b x0 max tol r x g LO H. exact (solve_cg_tracks FL n mulA LO cols b x0 max tol (r, x, g) H). Qed.
+Check residual_invariant_cg : forall (A : SArith), FieldLaws (SA A) ->
+  forall n (mulA : list (T (SA A)) -> res (list (T (SA A)))) cols b x0 max tol r x g,
+  LinOp n mulA -> solve_cg mulA n cols b x0 max tol = Ok (r, x, g) ->
+  exists ax, mulA x = Ok ax /\ g_t g = zipw sub b ax.
+Print Assumptions residual_invariant_cg.
+
+Theorem residual_invariant_bicg : forall (A : SArith), FieldLaws (SA A) ->
+  forall n (mulA mulAT : list (T (SA A)) -> res (list (T (SA A)))) cols itol b x0 max tol r x g,
+  LinOp n mulA -> solve_bicg mulA mulAT n cols itol b x0 max tol = Ok (r, x, g) ->
+  exists ax, mulA x = Ok ax /\ g_t g = zipw sub b ax.
+Proof. intros A FL n mulA mulAT cols itol b x0 max tol r x g LO H. exact (solve_bicg_tracks FL n mulA mulAT LO cols itol b x0 max tol (r, x, g) H). Qed.
+Check residual_invariant_bicg : forall (A : SArith), FieldLaws (SA A) ->
+  forall n (mulA mulAT : list (T (SA A)) -> res (list (T (SA A)))) cols itol b x0 max tol r x g,
+  LinOp n mulA -> solve_bicg mulA mulAT n cols itol b x0 max tol = Ok (r, x, g) ->
+  exists ax, mulA x = Ok ax /\ g_t g = zipw sub b ax.
+Print Assumptions residual_invariant_bicg.
+
+Theorem residual_invariant_bicgstab : forall (A : SArith), FieldLaws (SA A) ->
+  forall n (mulA : list (T (SA A)) -> res (list (T (SA A)))) cols b x0 max tol r x g,
+  LinOp n mulA -> solve_bicgstab mulA n cols b x0 max tol = Ok (r, x, g) ->
+  exists ax, mulA x = Ok ax /\ g_t g = zipw sub b ax.
+Proof. intros A FL n mulA cols b x0 max tol r x g LO H. exact (solve_bicgstab_tracks FL n mulA LO cols b x0 max tol (r, x, g) H). Qed.
+Check residual_invariant_bicgstab : forall (A : SArith), FieldLaws (SA A) ->
+  forall n (mulA : list (T (SA A)) -> res (list (T (SA A)))) cols b x0 max tol r x g,
+  LinOp n mulA -> solve_bicgstab mulA n cols b x0 max tol = Ok (r, x, g) ->
+  exists ax, mulA x = Ok ax /\ g_t g = zipw sub b ax.
+Print Assumptions residual_invariant_bicgstab.
+
+Theorem residual_invariant_qmr : forall (A : SArith), FieldLaws (SA A) ->
+  forall n (mulA mulAT : list (T (SA A)) -> res (list (T (SA A)))) cols b x0 max tol r x g,
+  LinOp n mulA -> solve_qmr mulA mulAT n cols b x0 max tol = Ok (r, x, g) ->
+  exists ax, mulA x = Ok ax /\ g_t g = zipw sub b ax.
+Proof. intros A FL n mulA mulAT cols b x0 max tol r x g LO H. exact (solve_qmr_tracks FL n mulA mulAT LO cols b x0 max tol (r, x, g) H). Qed.
+Check residual_invariant_qmr : forall (A : SArith), FieldLaws (SA A) ->
+  forall n (mulA mulAT : list (T (SA A)) -> res (list (T (SA A)))) cols b x0 max tol r x g,
+  LinOp n mulA -> solve_qmr mulA mulAT n cols b x0 max tol = Ok (r, x, g) ->
+  exists ax, mulA x = Ok ax /\ g_t g = zipw sub b ax.
+Print Assumptions residual_invariant_qmr.
+
+(* Ok k: the TRUE residual passes the code's own test:  ||b - A x|| / ||b||'  <= tol  (or < tol),
+   ||b||' = ||b|| with 0 replaced by 1 (nz).  Stated with the code's division and comparisons
+   because an Arith carries no order laws; for an ordered field it reads ||b - A x|| <= tol ||b||'. *)
+Theorem ok_means_solved : forall (A : SArith), FieldLaws (SA A) ->
+  forall n (mulA mulAT : list (T (SA A)) -> res (list (T (SA A)))) cols sv b x0 max tol k x g,
+  LinOp n mulA -> run mulA mulAT n cols sv b x0 max tol = Ok (IOk k, x, g) ->
+  exists ax resid, mulA x = Ok ax /\
+    div (norm2 (zipw sub b ax)) (nz (norm2 b)) = Ok resid /\
+    (leb resid tol = true \/ ltb resid tol = true).
+Proof. intros A FL n mulA mulAT cols sv b x0 max tol k x g LO H. exact (run_ok_solved FL n mulA mulAT LO cols sv b x0 max tol k x g H). Qed.
+Check ok_means_solved : forall (A : SArith), FieldLaws (SA A) ->
+  forall n (mulA mulAT : list (T (SA A)) -> res (list (T (SA A)))) cols sv b x0 max tol k x g,
+  LinOp n mulA -> run mulA mulAT n cols sv b x0 max tol = Ok (IOk k, x, g) ->
+  exists ax resid, mulA x = Ok ax /\
+    div (norm2 (zipw sub b ax)) (nz (norm2 b)) = Ok resid /\
+    (leb resid tol = true \/ ltb resid tol = true).
+Print Assumptions ok_means_solved.
+
+(* non-vacuity of the field-level hypotheses: Qc is a field (AQ_FieldLaws), the CSC product of
+   [[4,1],[1,3]] is a LinOp (exq_lin), and every solver answers Ok k with k >= 1 on it
+   (b = (1,2), x0 = (2,1), tol 1/1000; SAQ = Qc with a stand-in sqrt, see Proofs/IterInst.v) *)
+Example residual_invariant_nonvacuous :
+  LinOp 2 (@sp_mul AQ exq_s) /\
+  (exists x g, @run SAQ (sp_mul exq_s) (sp_tmul exq_s) 2 2 CG [q 1 1; q 2 1] [q 2 1; q 1 1] 10 (q 1 1000) = Ok (IOk 2, x, g)) /\
+  (exists x g, @run SAQ (sp_mul exq_s) (sp_tmul exq_s) 2 2 (BiCG 1) [q 1 1; q 2 1] [q 2 1; q 1 1] 10 (q 1 1000) = Ok (IOk 2, x, g)) /\
+  (exists x g, @run SAQ (sp_mul exq_s) (sp_tmul exq_s) 2 2 (BiCG 2) [q 1 1; q 2 1] [q 2 1; q 1 1] 10 (q 1 1000) = Ok (IOk 2, x, g)) /\
+  (exists x g, @run SAQ (sp_mul exq_s) (sp_tmul exq_s) 2 2 BiCGSTAB [q 1 1; q 2 1] [q 2 1; q 1 1] 10 (q 1 1000) = Ok (IOk 2, x, g)) /\
+  (exists x g, @run SAQ (sp_mul exq_s) (sp_tmul exq_s) 2 2 QMR [q 1 1; q 2 1] [q 2 1; q 1 1] 10 (q 1 1000) = Ok (IOk 2, x, g)).
+Proof.
+  split; [exact exq_lin|].
+  repeat split; apply (@ok_k_witness SAQ); vm_compute; reflexivity.
+Qed.
+
+(* ---- the hypothesis LinOp discharged for EVERY square matrix of EVERY order, given as its list of rows
+        ([rmul rs v] = the code's dot product of every row with v; [rprod rs x] = the textbook product):
+        Ok k means that the TRUE residual b - M x passes the code's test.  No hypothesis on the transposed
+        product is needed. ---- *)
+Theorem ok_means_solved_rows : forall (A : SArith), FieldLaws (SA A) ->
+  forall n (rs : list (list (T (SA A)))) (mulAT : list (T (SA A)) -> res (list (T (SA A)))) cols sv b x0 max tol k x g,
+  length rs = n -> Forall (fun r => length r = n) rs ->
+  run (rmul rs) mulAT n cols sv b x0 max tol = Ok (IOk k, x, g) ->
+  exists resid, div (norm2 (zipw sub b (rprod rs x))) (nz (norm2 b)) = Ok resid /\
+                (leb resid tol = true \/ ltb resid tol = true).
+Proof. intros A FL n rs mulAT cols sv b x0 max tol k x g Hn Hrs H. exact (run_ok_solved_rows FL n rs mulAT cols sv b x0 max tol k x g Hn Hrs H). Qed.
+Check ok_means_solved_rows : forall (A : SArith), FieldLaws (SA A) ->
+  forall n (rs : list (list (T (SA A)))) (mulAT : list (T (SA A)) -> res (list (T (SA A)))) cols sv b x0 max tol k x g,
+  length rs = n -> Forall (fun r => length r = n) rs ->
+  run (rmul rs) mulAT n cols sv b x0 max tol = Ok (IOk k, x, g) ->
+  exists resid, div (norm2 (zipw sub b (rprod rs x))) (nz (norm2 b)) = Ok resid /\
+                (leb resid tol = true \/ ltb resid tol = true).
+Print Assumptions ok_means_solved_rows.
+
+Example ok_means_solved_rows_nonvacuous : exists x g,
+  @run SAQ (@rmul AQ [[q 4 1; q 1 1]; [q 1 1; q 3 1]]) (@rmul AQ [[q 4 1; q 1 1]; [q 1 1; q 3 1]]) 2 2 BiCGSTAB
+       [q 1 1; q 2 1] [q 2 1; q 1 1] 10 (q 1 1000) = Ok (IOk 2, x, g).
+Proof. apply (@ok_k_witness SAQ). vm_compute. reflexivity. Qed.
+
+(* ---- the real numbers with the standard square root (SAR, Proofs/IterR.v): the same statement as an
+        inequality between reals:  ||b - A x||_2 <= tol * ||b||'.  Uses the four standard-library axioms of R. ---- *)
+Theorem ok_means_solved_R : forall n (mulA mulAT : list R -> res (list R)) cols sv (b x0 : list R) max (tol : R) k x g,
+  @LinOp AR n mulA -> @run SAR mulA mulAT n cols sv b x0 max tol = Ok (IOk k, x, g) ->
+  exists ax, mulA x = Ok ax /\
+    (@norm2 SAR (@zipw AR Rminus b ax) <= tol * @nz SAR (@norm2 SAR b))%R.
+Proof. intros n mulA mulAT cols sv b x0 max tol k x g LO H. exact (run_ok_solved_R n mulA mulAT LO cols sv b x0 max tol k x g H). Qed.
+Check ok_means_solved_R : forall n (mulA mulAT : list R -> res (list R)) cols sv (b x0 : list R) max (tol : R) k x g,
+  @LinOp AR n mulA -> @run SAR mulA mulAT n cols sv b x0 max tol = Ok (IOk k, x, g) ->
+  exists ax, mulA x = Ok ax /\
+    (@norm2 SAR (@zipw AR Rminus b ax) <= tol * @nz SAR (@norm2 SAR b))%R.
+Print Assumptions ok_means_solved_R.
+
+(* non-vacuity over R: the CSC matrix [[4,1],[1,3]] is a LinOp and CG answers Ok on (b := A x0, x0 = (1,2)) *)
+Example ok_means_solved_R_nonvacuous :
+  @LinOp AR 2 (@sp_mul AR exr_s) /\
+  exists b g, length b = 2 /\
+    @run SAR (@sp_mul AR exr_s) (@sp_tmul AR exr_s) 2 2 CG b [1%R; 2%R] 5 1%R = Ok (IOk 0, [1%R; 2%R], g).
+Proof. split; [exact exr_lin|]. apply exr_run_ok. intros itol H; discriminate H. Qed.
